@@ -41,7 +41,7 @@ def set_cfg_b(v: f32):
     CfgA.b = v
 
 
-@instr("ld4({dst_data}, {src_data});")
+@instr("ld4({dst_data}, {src_data});", "#include <sim_ld4.h>")
 def ld4(dst: [f32][4] @ DRAM, src: [f32][4] @ DRAM):
     assert stride(src, 0) == 1
     assert stride(dst, 0) == 1
@@ -49,26 +49,26 @@ def ld4(dst: [f32][4] @ DRAM, src: [f32][4] @ DRAM):
         dst[i] = src[i]
 
 
-@instr("add4({dst_data}, {a_data}, {b_data});")
+@instr("add4({dst_data}, {a_data}, {b_data});", "#include <sim_add4.h>")
 def add4(dst: [f32][4] @ DRAM, a: [f32][4] @ DRAM, b: [f32][4] @ DRAM):
     assert stride(dst, 0) == 1
     for i in seq(0, 4):
         dst[i] = a[i] + b[i]
 
 
-@instr("fma4({dst_data}, {a_data}, {b_data});")
+@instr("fma4({dst_data}, {a_data}, {b_data});", "#define SIM_FMA4 1")
 def fma4(dst: [f32][4] @ DRAM, a: [f32][4] @ DRAM, b: [f32][4] @ DRAM):
     for i in seq(0, 4):
         dst[i] += a[i] * b[i]
 
 
-@instr("zero4({dst_data});")
+@instr("zero4({dst_data});", "#include <sim_zero4.h>")
 def zero4(dst: [f32][4] @ DRAM):
     for i in seq(0, 4):
         dst[i] = 0.0
 
 
-@instr("ldn({dst_data}, {src_data}, {m});")
+@instr("ldn({dst_data}, {src_data}, {m});", "static int sim_ldn_used;")
 def ldn(m: size, dst: [f32][4] @ DRAM, src: [f32][m] @ DRAM):
     assert m <= 4
     for i in seq(0, 4):
@@ -90,6 +90,7 @@ class G:
         self.want_cfg = cfg.get("configs", False)
         self.want_calls = cfg.get("calls", True)
         self.want_par = cfg.get("par", False)
+        self.asserts_extra = set()
 
     def fresh(self, base):
         self.tmp += 1
@@ -291,18 +292,155 @@ class G:
         body = r.choice(["y[0] = x[0]", f"y[0] = {self.const()}", "y[n - 1] = x[0] * 2.0"])
         return [f"for rr in seq({lo}, {hi}):", f"    {body}"]
 
+    def m_padded_acc(self):
+        """buffer whose upper lanes are only accumulated into (Check_Bounds must
+        see reduce accesses when the buffer is resized / staged)."""
+        self.use("x", "y")
+        t = self.fresh("pad")
+        return [
+            f"{t}: f32[8]",
+            "for k in seq(0, 8):",
+            f"    {t}[k] = 0.0",
+            "for k in seq(0, 4):",
+            f"    {t}[k] = x[0] * {self.const()}",
+            "for k in seq(0, 8):",
+            f"    {t}[k] += 1.0",
+            "for k in seq(0, 4):",
+            f"    y[0] += {t}[k]",
+        ]
+
+    def m_row_alloc(self):
+        """allocation whose extent depends on an enclosing loop variable."""
+        self.use("A", "C")
+        t = self.fresh("row")
+        return [
+            "for i in seq(0, n):",
+            "    for j in seq(0, m):",
+            f"        {t}: f32[j + 1]",
+            f"        {t}[j] = A[i, j] * {self.const()}",
+            f"        C[i, j] = {t}[j]",
+        ]
+
+    def m_masked(self):
+        """masked copy with an else branch (instances / non-instances of ldn)."""
+        self.use("B", "y")
+        self.asserts_extra.add("assert m <= 4")
+        t = self.fresh("v")
+        out = [f"{t}: f32[4]", "for k in seq(0, 4):", "    if k < m:", f"        {t}[k] = B[k]"]
+        if self.r.random() < 0.7:
+            out += ["    else:", f"        {t}[k] = {self.const()}"]
+        out += ["for k in seq(0, 4):", f"    y[0] += {t}[k]"]
+        return out
+
+    def m_shift_copy(self):
+        self.use("y")
+        if self.r.random() < 0.5:
+            return ["for i in seq(0, n - 1):", "    y[i + 1] = y[i]"]
+        self.use("x")
+        return ["for i in seq(0, n - 1):", "    y[i] = x[i + 1]"]
+
+    def m_else_alloc(self):
+        """allocations inside else branches; provably true / false conditions."""
+        r = self.r
+        self.use("x", "y")
+        c = r.choice(["i < n / 2", "n + 1 < 1", "n >= 1", "i >= 1", "flag"])
+        if c == "flag":
+            self.use("flag")
+        t = self.fresh("tt")
+        out = ["for i in seq(0, n):", f"    if {c}:", f"        y[i] = x[i] * {self.const()}", "    else:",
+               f"        {t}: f32", f"        {t} = x[i]", f"        y[i] = {t} + {self.const()}", f"    y[i] += {self.const()}"]
+        if r.random() < 0.4:
+            out += ["for i in seq(0, n):", f"    y[i] += x[i]"]
+        return out
+
+    def m_two_ifs(self):
+        r = self.r
+        self.use("x", "y")
+        c = r.choice(["flag", "n > 2", "m < n"])
+        if c == "flag":
+            self.use("flag")
+        out = [f"if {c}:", "    y[0] = x[0]", f"if {c}:", f"    y[n - 1] = x[0] * {self.const()}"]
+        if r.random() < 0.5:
+            out[1:2] = ["    y[0] = x[0]"]
+            out += [f"y[0] += {self.const()}"]
+        out += ["for i in seq(0, n):", "    y[i] += x[i]"]
+        return out
+
+    def m_cfg_rwo(self):
+        """write - read (in control) - overwrite of an index-typed config field."""
+        self.use("x", "y")
+        a, b = self.r.choice([("3", "1"), ("2", "5"), ("0", "4")])
+        return [f"CfgA.k = {a}", "for i in seq(0, n):", "    if i < CfgA.k:", f"        y[i] = x[i] * {self.const()}", f"CfgA.k = {b}"]
+
+    def m_cfg_callee(self):
+        """config written in a callee and read afterwards in the caller."""
+        self.use("x", "y", "s")
+        if self.r.random() < 0.5:
+            return ["set_cfg_b(s)", "for i in seq(0, n):", "    y[i] = x[i] + CfgA.b"]
+        return ["set_cfg_b(s)", "vcopy(n, y[0:n], x[0:n])", "for i in seq(0, n):", "    y[i] += CfgA.b"]
+
+    def m_instr_calls(self):
+        """direct calls to several library instructions (their global C
+        fragments are emitted in the C file)."""
+        r = self.r
+        self.use("q", "P", "Q", "R4")
+        calls = r.sample(
+            ["ld4(Q[4 * io:4 * io + 4], P[4 * io:4 * io + 4])", "add4(Q[4 * io:4 * io + 4], P[4 * io:4 * io + 4], R4[4 * io:4 * io + 4])",
+             "fma4(Q[4 * io:4 * io + 4], P[4 * io:4 * io + 4], R4[4 * io:4 * io + 4])", "zero4(Q[4 * io:4 * io + 4])"],
+            r.randint(2, 4),
+        )
+        return ["for io in seq(0, q):"] + ["    " + c for c in calls]
+
+    def m_sliding(self):
+        """sliding window handed to a callee with its own loop variable `i`."""
+        self.use("y")
+        self.asserts_extra.add("assert n > 4")
+        return ["for i in seq(0, n - 4):", "    zero4(y[i:i + 4])"] if self.r.random() < 0.5 else [
+            "for i in seq(0, n - 4):", "    vcopy(4, y[i:i + 4], y[i:i + 4])" if False else "    zero4(y[i + 1:i + 5])"]
+
+    def m_temp2d(self):
+        """constant-extent 2-D temporaries (unroll_buffer, mult_dim, rearrange_dim,
+        divide_dim, reuse_buffer, delete_buffer)."""
+        r = self.r
+        self.use("y")
+        t = self.fresh("g")
+        out = [f"{t}: f32[4, 2]", "for k in seq(0, 4):", "    for l in seq(0, 2):", f"        {t}[k, l] = {self.const()}",
+               "for k in seq(0, 4):", "    for l in seq(0, 2):", f"        y[0] += {t}[k, l]"]
+        if r.random() < 0.5:
+            u = self.fresh("h")
+            out += [f"{u}: f32[4, 2]", "for k in seq(0, 4):", "    for l in seq(0, 2):", f"        {u}[k, l] = 1.0",
+                    "for k in seq(0, 4):", f"    y[0] += {u}[k, 0]"]
+        if r.random() < 0.3:
+            out += [f"{self.fresh('unused')}: f32[4]"]
+        return out
+
+    def m_fold(self):
+        self.use("x", "y")
+        c = self.const()
+        return self.r.choice([
+            ["for i in seq(0, n):", "    y[i] = y[i] + x[i]"],
+            ["for i in seq(0, n):", f"    y[i] = x[i] * {c} + y[i]"],
+            ["y[0] = 0.0", "for i in seq(0, n):", f"    y[0] += {c} * x[i]"],
+            ["for i in seq(0, n):", f"    y[i] = x[i] + ({c} + x[i])"],
+        ])
+
     MOTIFS = [
         "elementwise", "nest2d", "temp", "accum", "stencil", "guard", "small", "vec4", "call", "window",
-        "two_loops", "reduce_consts", "repeat",
+        "two_loops", "reduce_consts", "repeat", "padded_acc", "row_alloc", "masked", "shift_copy", "else_alloc",
+        "two_ifs", "instr_calls", "sliding", "temp2d", "fold",
     ]
 
     def program(self, name="p"):
         r = self.r
         motifs = list(self.MOTIFS)
         if self.want_cfg:
-            motifs += ["config", "config", "config"]
+            motifs += ["config", "config", "config", "cfg_rwo", "cfg_rwo", "cfg_callee", "cfg_callee"]
         if not self.want_calls:
             motifs.remove("call")
+        if self.cfg.get("no_instr"):
+            for m_ in ("instr_calls", "sliding"):
+                if m_ in motifs:
+                    motifs.remove(m_)
         n_m = r.choice([1, 2, 2, 3])
         body = []
         picked = []
@@ -336,6 +474,7 @@ class G:
             asserts.append("assert n % 2 == 0")
         if r.random() < 0.15:
             asserts.append("assert m <= 6")
+        asserts += sorted(self.asserts_extra)
         src = f"@proc\ndef {name}({', '.join(args)}):\n"
         for a in asserts:
             src += f"    {a}\n"
